@@ -339,6 +339,7 @@ def rule_exists_clause_kept(ctx):
     ctx.floor("C04.k statements with an existence clause", n, 3)
 
 
+from .c08 import rule_executemany_client_side  # noqa: E402  (under pyformat too every parameter set is bound into the whole command: one DML statement, one count, per set)
 from .c08 import rule_executemany  # noqa: E402  (every row of an executemany batch is executed: a batch read twice is empty the second time)
 from .c05 import rule_reset  # noqa: E402  (after a failed statement rowcount is None, not the previous statement's count)
 from .c16 import rule_nop  # noqa: E402  (a statement wrongly no-op'd changes no rows and reports no count)
@@ -407,6 +408,7 @@ RULES = [
     ("C04.l", rule_dml_not_split, ("quick", "thorough")),
     ("C04.k", rule_exists_clause_kept, ("quick", "thorough")),
     ("C04.j", rule_executemany, ("quick", "thorough")),
+    ("C04.j2", rule_executemany_client_side, ("quick", "thorough")),
     ("C04.i", rule_reset, ("quick", "thorough")),
     ("C04.h", rule_count_survives_reads, ("quick", "thorough")),
     ("C04.g", rule_executemany_count, ("quick", "thorough")),
